@@ -37,7 +37,7 @@ def harnesses():
                                    ("thiszone", "set_thiszone"), ("sigfigs", "set_sigfigs"), ("snaplen", "set_snaplen"),
                                    ("linktype", "set_linktype"))):
         for ns, mn in ((False, "us"), (True, "ns")):
-            tier = "quick" if (n in ("minor", "thiszone") and not ns) else "thorough"
+            tier = "quick" if (n == "thiszone" and not ns) else "thorough"
             out.append(H(f"c17_pcap_set_{n}_{mn}", "C17", tier, f"pcapobj::set({k}, {str(ns).lower()}, |p, v| p.{meth}(v))",
                          f"pcap_set_{n}", f"20 symbolic header bytes after the {mn} magic, assigned value any i64, 1 symbolic compare index", 26))
     # ---- C21 (count of bytes returned / consumed; see pcapio.rs read_prefix for why not the values)
